@@ -123,6 +123,28 @@ class VM {
    * @return true if the end has been reached
    */
   bool isDone();
+
+#ifdef THEO_VERIF_HOOKS
+  /* read-only observation points used by the verification harness in /verif;
+     compiled only with -DTHEO_VERIF_HOOKS */
+  struct VerifFrame {
+    WordIndex data_start;
+    WordIndex seg_size;
+    RegisterIndex ret_target;
+    ProgramIndex ret_addr;
+    StackMapIndex debug_info;
+  };
+  ProgramIndex verifInstructionPointer() const { return instruction_pointer; }
+  const std::vector<Word>& verifData() const { return data; }
+  const Program& verifProgram() const { return code; }
+  std::vector<VerifFrame> verifFrames() const {
+    std::vector<VerifFrame> r;
+    for (const Activation& a : stack)
+      r.push_back({a.data_start, a.seg_size, a.ret_target, a.ret_addr,
+                   a.debug_info});
+    return r;
+  }
+#endif
 };
 
 }  // namespace Theo
